@@ -14,7 +14,9 @@ RULE = ("histories of directory operations drawn from one PRNG (VERIF_SEED): blo
         "out by Hnewref/Htagnewref; create / duplicate / delete / reuse / rewrite, caching off, on and toggled, "
         "Hsync, close+reopen; after every history the whole directory is observed (wildcard Hfind in both directions, "
         "per-tag Hfind, Hnumber, Hexist, HDcheck_tagref, Hlength, Hnewref, Htagnewref) before and after a reopen; plus "
-        "fixed boundary scenarios (ref 65535 / wrap-around search, odd block sizes, block overflow with caching off, "
+        "fixed boundary scenarios (ref 65535 / wrap-around search, odd block sizes, block overflow with caching off, a "
+        "session that ends with a full last DD block and nothing behind it in the file -- filled by Hdupdd aliases -- then "
+        "reopen, more objects, reopen; the library's end of file is read after every reopen, "
         "duplicate onto a used key) and every history of length <= 3 (thorough: <= 5) over a 6-operation alphabet, "
         "each with caching on and off.  A history is non-trivial when it is inside the specification's domain and "
         "changes the directory at least once; distinct by its operation text")
@@ -154,7 +156,7 @@ def gen_history(r, length, cache0=None):
         elif x < 0.96:
             h.append("sync")
         elif x < 0.99:
-            h.append("reopen")
+            h += ["reopen", "eof"]
         else:
             h.append("dump")
     return h + observe(tags, refs)
@@ -171,7 +173,7 @@ def observe(tags, refs):
         for t in tags[:3]:
             o += ["exist %d %d" % (t, rf), "check %d %d" % (t, rf)]
     o += ["newref", "tagnewref %d" % tags[0]]
-    return o + ["reopen"] + o
+    return o + ["reopen", "eof"] + o
 
 
 def scenarios(r):
@@ -207,6 +209,17 @@ def scenarios(r):
         h += ["del %d %d" % (T, i) for i in range(2, 3 * n, 2)] + ["findall 0 0 2", "number %d" % T]
         h += ["put %d %d 2" % (U, i) for i in range(1, n + 2)] + ["dump"]
         S.append(h + obs)
+    # a session ends with the last DD block full and nothing behind it in the file (descriptors that bring no
+    # data: Hdupdd aliases, reused elements); reopen, create more (forcing a new block), reopen, compare everything
+    for n in (4, 5, 8, 16):
+        for k in sorted(set([n, r.randrange(1, n + 1)])):
+            h = ["open %d" % n] + ["put %d %d %d" % (T, i, 3 + i) for i in range(1, n)]
+            h += ["dup %d %d %d 1" % (U, i, T) for i in range(1, k + 1)] + ["dump", "reopen", "eof", "dump"]
+            h += ["put %d %d 7" % (T, 100 + i) for i in range(1, r.choice([2, n + 2]))]
+            h += ["dump", "reopen", "eof", "dump", "findall 0 0 1", "number %d" % U, "number %d" % T]
+            S.append(h + obs)
+    h = ["open 4", "cache 0"] + ["put %d %d 5" % (T, i) for i in range(1, 4)] + ["dup %d %d %d 2" % (U, i, T) for i in range(1, 9)]
+    S.append(h + ["reuse %d 3" % T, "reopen", "eof", "put %d 9 6" % T, "dup %d 9 %d 9" % (U, T), "reopen", "eof"] + obs)
     # tag with every low ref used: bit-vector byte boundaries
     S.append(["open 16"] + ["put %d %d 1" % (T, i) for i in range(1, 18)] + ["tagnewref %d" % T, "del %d 8" % T, "tagnewref %d" % T,
              "put %d 8 1" % T, "del %d 16" % T, "tagnewref %d" % T, "del %d 1" % T, "tagnewref %d" % T] + obs)
@@ -327,6 +340,15 @@ def compare(h, rl, ml):
         if op == "dump":
             if r != m and rm is None:
                 rm = ("RM", i, "DD table differs: library [%s] model [%s]" % (r, m))
+            continue
+        if op == "eof":
+            e = r.split("|")[0].strip()
+            if s == "low":
+                return ("RS", i, "end of file %s lies inside a live DD block or element: a later allocation overwrites it "
+                        "(layout %s)" % (e, r[:160])), changed
+            after_reopen = i > 0 and split(rl[i - 1])[0] == "reopen"
+            if after_reopen and e != m and rm is None:
+                rm = ("RM", i, "end of file after reopen: library %s, HTPstart model %s" % (e, m))
             continue
         if s == "nodomain":
             break
